@@ -73,7 +73,8 @@ CLAIMED = {
  'C02': ('Where port and reference are the same algorithm both are tied to one Lean model by two correspondence runs on identical inputs; where the texts differ equality is a theorem '
          '(MatrixLog3 for every 3x3 matrix: the port\'s clip is the identity on the branch using it; MatrixLog6 on rigid transforms; Normalize). For the Newton IK loop, with an arbitrary pseudo-inverse update and any iteration cap, '
          'a reported success implies both error norms within the requested tolerances (and a reported failure implies a missed tolerance). All 47 shared functions are compared port-vs-reference directly '
-         '(values, shapes, exceptions); dynamics/trajectory/control functions are not modelled in Lean: differential evidence only, labelled sampled.',
+         '(values, shapes, exceptions). The cubic and quintic time scalings are modelled and tied to both libraries; they start at 0, end at 1 and stay inside [0,1] for 0 <= t <= Tf (theorems). '
+         'The other dynamics/trajectory/control functions are not modelled in Lean: differential evidence only, labelled sampled.',
          'Trusted: Lean kernel, Mathlib, the vendored reference copy, the valid-argument generators, NumPy linear algebra shared by both libraries.',
          'Lean 4 equality proofs for the textually different kernels + IK loop soundness proof + double differential correspondence (model vs port, model vs reference)',
          'DESIGN.md section 5 C02'),
